@@ -143,7 +143,7 @@ func main() {
 		if err == nil && o.Driver != "" {
 			err = stringsEngine(r.Fork(1<<40), o, rep)
 		}
-		n := o.Budget(1500, 50000)
+		n := o.Budget(1500, 30000)
 		if v, e := strconv.Atoi(os.Getenv("C16_N")); e == nil {
 			n = v
 		}
